@@ -140,5 +140,5 @@ class ProgressBar(Widget):
             c._attr = [a]
             c._cs = [[(None, len(c._text[0]))]]
         else:
-            c._attr = [[(self.complete, ccol), (self.normal, maxcol - ccol)]]
+            c._attr = [[(a, n) for a, n in ((self.complete, ccol), (self.normal, maxcol - ccol)) if n]]
         return c
